@@ -126,6 +126,24 @@ class Seams:
 
             node_mod.uuid4 = sim_uuid4
             self.uuid_available = True
+        # Nodes hash by address by default, so every PLAIN set of nodes the library or a caller
+        # builds (AuxData values, set().union(...) inside a bulk operation, networkx internals)
+        # iterates in an order that differs from process to process. Hash by UUID instead:
+        # equality stays identity, so this is a legal hash, and UUIDs come from the seeded seam
+        # or from the recorded operations. Only installed while no class in the hierarchy
+        # defines __hash__ / __eq__ itself.
+        self.hash_available = False
+        N = getattr(node_mod, "Node", None)
+        if N is not None and "__hash__" not in N.__dict__ and "__eq__" not in N.__dict__:
+
+            def sim_hash(self_):
+                try:
+                    return hash(self_.uuid.int)
+                except Exception:
+                    return id(self_) >> 4
+
+            N.__hash__ = sim_hash
+            self.hash_available = True
         SW = getattr(g.util, "SetWrapper", None)
         if SW is not None and "__iter__" in SW.__dict__:
             probe = SW()
